@@ -368,6 +368,13 @@ class Sim:
             if isinstance(fault, dict):
                 bad_at = min(fault["bad_line_at"], len(lines))
                 lines.insert(bad_at, "this is not a reaction")
+            if fmt == "krome" and op.get("kfmt"):
+                # a KROME file that declares its own column order (seeded change c14am: the declaration must
+                # not outlive the file, also when the file is abandoned at a malformed line)
+                def _re(ln):
+                    f = ln.split(",", 10)
+                    return ln if len(f) != 11 else ",".join([f[0], f[8], f[9]] + f[1:8] + [f[10]])
+                lines = ["@format:idx,tmin,tmax,r,r,r,p,p,p,p,rate"] + [_re(ln) for ln in lines]
             self.nfile += 1
             path = os.path.join(self.rundir, f"net{n}_{self.nfile}.{fmt}")
             with open(path, "w") as f:
@@ -689,7 +696,10 @@ def gen_op(rng, world, sim, n):
         fault = None
         if world["faults"] and rng.random() < 0.35:
             fault = rng.choice(["open-fail", "read-fail", {"bad_line_at": rng.randint(0, k)}])
-        return {"op": kind, "net": n, "uids": [ar["uid"] for ar in chosen], "fmt": fmt, "fault": fault}
+        op = {"op": kind, "net": n, "uids": [ar["uid"] for ar in chosen], "fmt": fmt, "fault": fault}
+        if fmt == "krome" and (sum(op["uids"]) + k) % 2 == 0:
+            op["kfmt"] = 1  # derived, not drawn: the random stream of the generator stays as it was
+        return op
     if kind == "rm_idx":
         if rng.random() < 0.08:
             return {"op": kind, "net": n, "i": nheld + rng.randint(0, 2)}
